@@ -12,30 +12,106 @@
 //! (<= 25 bookmarks, depth <= 6, Unicode titles).  Both write the same record format, which
 //! Trace_Outline judges.  Cases run in a supervised child process so that a panic, abort, stack
 //! overflow or hang (get_toc on a Next cycle never returns) is data.
+//!
+//! Document-side dimensions of a case: `dests` (a /Names /Dests name tree or a PDF 1.1 /Dests dictionary in
+//! every legal spelling next to the forest), `room` (the base document's max_id is placed `room` numbers
+//! below the highest usable object number u32::MAX - 1; ids >= 3*2^30 are logged minus 2^31 so that they fit
+//! TLC's integers), and the stack: the walkers under test (`small` = subset of adjust/build/toc) run on a
+//! thread with `stack_kb` KiB (default 2048, Rust's default for spawned threads), everything else on a
+//! 1 GiB thread.  Chains t1 > t2 > ... > tn of any length are logged in a compact per-level format
+//! (kind = "chain") that Trace_Outline!ChainJudge checks in linear time.
 use lopdf::xref::XrefType;
 use lopdf::{dictionary, Bookmark, Dictionary, Document, Object, ObjectId};
 use lopdf_conform::{guard::guarded, io::*, rng::Rng, sup};
 use serde_json::{json, Value};
-use std::collections::BTreeSet;
+use std::collections::{BTreeSet, HashMap};
 use std::time::Duration;
 
 const BAD: u32 = 999_999_999;
 
+/// number of objects `add_dests` allocates for a spelling
+fn dests_objects(dests: &str) -> usize {
+    match dests {
+        "none" | "old-direct" | "old-names-key" => 0,
+        "tree-direct" => 3,     // tree root, leaf, destination dictionary
+        "kids-ref" => 4,        // + Kids array
+        "names-ref" => 4,       // + Names array
+        "d-ref" => 4,           // + D array
+        "value-array-ref" => 3, // root, leaf, destination array as an object
+        "old-refs" => 2,        // destination array object, destination dictionary object
+        _ => panic!("harness: unknown dests spelling {dests}"),
+    }
+}
+
+/// A table of named destinations next to the bookmark forest (no bookmark uses it), in one of the legal
+/// spellings: PDF 1.2 name tree under /Names /Dests (ISO 32000-1 7.9.6, 12.3.2.3) with Kids / Names / D given
+/// directly or as indirect references, or the PDF 1.1 /Dests dictionary of the catalog.
+fn add_dests(doc: &mut Document, catalog: &mut Dictionary, dests: &str, page: ObjectId) {
+    let arr = |fit: &str| Object::Array(vec![Object::Reference(page), Object::Name(fit.as_bytes().to_vec())]);
+    let name = |s: &str| Object::string_literal(s);
+    match dests {
+        "none" => {}
+        "tree-direct" | "kids-ref" | "names-ref" | "d-ref" | "value-array-ref" => {
+            let root_id = doc.new_object_id();
+            let leaf_id = doc.new_object_id();
+            let d: Object = if dests == "d-ref" { Object::Reference(doc.add_object(arr("Fit"))) } else { arr("Fit") };
+            let value: Object = if dests == "value-array-ref" {
+                Object::Reference(doc.add_object(arr("FitB")))
+            } else {
+                Object::Reference(doc.add_object(dictionary! {"D" => d}))
+            };
+            let names = Object::Array(vec![name("chap1"), value, name("chap2"), Object::Dictionary(dictionary! {"D" => arr("FitH")})]);
+            let names: Object = if dests == "names-ref" { Object::Reference(doc.add_object(names)) } else { names };
+            doc.objects.insert(
+                leaf_id,
+                Object::Dictionary(dictionary! {"Names" => names, "Limits" => vec![name("chap1"), name("chap2")]}),
+            );
+            let kids = Object::Array(vec![Object::Reference(leaf_id)]);
+            let kids: Object = if dests == "kids-ref" { Object::Reference(doc.add_object(kids)) } else { kids };
+            doc.objects.insert(root_id, Object::Dictionary(dictionary! {"Kids" => kids}));
+            catalog.set("Names", dictionary! {"Dests" => Object::Reference(root_id)});
+        }
+        "old-direct" => {
+            catalog.set("Dests", dictionary! {"chap1" => arr("Fit"), "chap2" => dictionary!{"D" => arr("FitH")}});
+        }
+        "old-names-key" => {
+            // a destination may be called anything, also "Names" or "Kids"
+            catalog.set("Dests", dictionary! {"Names" => dictionary!{"D" => arr("Fit")}, "Kids" => dictionary!{"D" => arr("FitB")}});
+        }
+        "old-refs" => {
+            let a = doc.add_object(arr("Fit"));
+            let d = doc.add_object(dictionary! {"D" => Object::Reference(a)});
+            catalog.set("Dests", dictionary! {"chap1" => Object::Reference(a), "chap2" => Object::Reference(d)});
+        }
+        _ => panic!("harness: unknown dests spelling {dests}"),
+    }
+}
+
+pub const DESTS: &[&str] =
+    &["none", "tree-direct", "kids-ref", "names-ref", "d-ref", "value-array-ref", "old-direct", "old-names-key", "old-refs"];
+
 /// Document with `np` pages.  `style` (seeded) decides extra objects, the order in which page
 /// objects get their ids (so page number != id order), an intermediate Pages node, and whether the
 /// document is first saved and loaded (a *loaded* base document).  Returns (doc, page ids in page order).
-fn mkdoc(np: usize, style: u64) -> Result<(Document, Vec<u32>), String> {
+fn mkdoc(np: usize, style: u64, dests: &str, room: Option<u32>) -> Result<(Document, Vec<u32>), String> {
     let mut rng = Rng::new(style);
     let mut doc = Document::with_version("1.5");
+    // the base document has at most 16 objects; with `room` its max_id ends exactly `room` below u32::MAX - 1
+    let draw = (rng.below(3), rng.below(3), np >= 2 && rng.chance(1, 3));
+    let mut rng = Rng::new(style ^ 0x5151);
+    if let Some(room) = room {
+        let nobj = 1 + draw.0 + np + draw.2 as usize + draw.1 + 1 + dests_objects(dests);
+        doc.max_id = (u32::MAX - 1).checked_sub(room).and_then(|x| x.checked_sub(nobj as u32)).ok_or("harness: room")?;
+    }
     let pages_id = doc.new_object_id();
-    for _ in 0..rng.below(3) {
+    for _ in 0..draw.0 {
         doc.add_object(dictionary! {"Type" => "Font", "Subtype" => "Type1", "BaseFont" => "Courier"});
     }
     let mut ids: Vec<ObjectId> = (0..np).map(|_| doc.new_object_id()).collect();
     if style % 2 == 1 {
         rng.shuffle(&mut ids);
     }
-    let nested = np >= 2 && rng.chance(1, 3);
+    let nested = draw.2;
     let split = if nested { 1 + rng.below(np - 1) } else { np };
     let inner_id = if nested { Some(doc.new_object_id()) } else { None };
     for (k, id) in ids.iter().enumerate() {
@@ -57,12 +133,19 @@ fn mkdoc(np: usize, style: u64) -> Result<(Document, Vec<u32>), String> {
     }
     doc.objects
         .insert(pages_id, Object::Dictionary(dictionary! {"Type" => "Pages", "Count" => np as i64, "Kids" => kids}));
-    for _ in 0..rng.below(3) {
+    for _ in 0..draw.1 {
         doc.add_object(Object::Integer(7));
     }
-    let catalog_id = doc.add_object(dictionary! {"Type" => "Catalog", "Pages" => pages_id});
+    let mut catalog = dictionary! {"Type" => "Catalog", "Pages" => pages_id};
+    add_dests(&mut doc, &mut catalog, dests, ids[0]);
+    let catalog_id = doc.add_object(catalog);
     doc.trailer.set("Root", catalog_id);
-    if rng.chance(1, 4) {
+    if let Some(room) = room {
+        if doc.max_id != u32::MAX - 1 - room {
+            return Err(format!("harness: room {} vs max_id {}", room, doc.max_id));
+        }
+    }
+    if room.is_none() && rng.chance(1, 4) {
         // a loaded base document (max_id comes from the reader)
         let fmt = if rng.chance(1, 2) { "table" } else { "stream" };
         // a failure here is data about lopdf (a plain n-page document must save and load), not a harness failure
@@ -126,15 +209,49 @@ fn item_json(doc: &Document, id: u32, d: &Dictionary) -> Value {
         dk = "Dest".to_string();
         dest = dest_of_array(doc, x).unwrap_or(0);
     }
-    json!({"id": id, "parent": link(d, b"Parent"), "first": link(d, b"First"), "last": link(d, b"Last"),
-           "next": link(d, b"Next"), "prev": link(d, b"Prev"), "title": title, "dk": dk, "aid": aid, "dest": dest})
+    json!({"id": wid(id), "parent": wid(link(d, b"Parent")), "first": wid(link(d, b"First")), "last": wid(link(d, b"Last")),
+           "next": wid(link(d, b"Next")), "prev": wid(link(d, b"Prev")), "title": title, "dk": dk, "aid": wid(aid), "dest": wid(dest)})
 }
 
-fn toc_json(doc: &Document) -> Value {
-    match guarded(|| doc.get_toc()) {
+/// Run `f` on a thread of its own with a stack of `kb` KiB (a panic inside `f` is re-raised here).
+fn on_stack<T: Send>(kb: usize, f: impl FnOnce() -> T + Send) -> T {
+    std::thread::scope(|s| {
+        let h = std::thread::Builder::new().stack_size(kb * 1024).spawn_scoped(s, f).expect("spawn phase thread");
+        match h.join() {
+            Ok(v) => v,
+            Err(e) => std::panic::resume_unwind(e),
+        }
+    })
+}
+
+/// which stack a phase runs on
+struct Stacks {
+    kb: usize,
+    small: Vec<String>,
+}
+
+impl Stacks {
+    fn run<T: Send>(&self, phase: &str, f: impl FnOnce() -> T + Send) -> T {
+        if self.small.iter().any(|p| p == phase) {
+            on_stack(self.kb, f)
+        } else {
+            f()
+        }
+    }
+}
+
+/// get_toc (and the drop of everything it built) as data; `flat` = per-column arrays for chain records
+fn toc_json(doc: &Document, st: &Stacks, flat: bool) -> Value {
+    match st.run("toc", || guarded(|| doc.get_toc())) {
+        Ok(Ok(t)) if flat => json!({"ok": true, "err": "", "errors": t.errors.len(), "n": t.toc.len(),
+            "lv": t.toc.iter().map(|e| e.level).collect::<Vec<_>>(),
+            "pg": t.toc.iter().map(|e| e.page).collect::<Vec<_>>(),
+            "tt": t.toc.iter().map(|e| e.title.chars().map(|c| c as u32).collect::<Vec<_>>()).collect::<Vec<_>>()}),
         Ok(Ok(t)) => json!({"ok": true, "err": "", "errors": t.errors.len(),
             "toc": t.toc.iter().map(|e| json!([e.level, e.title.chars().map(|c| c as u32).collect::<Vec<_>>(), e.page])).collect::<Vec<_>>()}),
+        Ok(Err(e)) if flat => json!({"ok": false, "err": lopdf_conform::wire::err_tag(&e), "errors": 0, "n": 0, "lv": [], "pg": [], "tt": []}),
         Ok(Err(e)) => json!({"ok": false, "err": lopdf_conform::wire::err_tag(&e), "errors": 0, "toc": []}),
+        Err(p) if flat => json!({"ok": false, "err": format!("panic: {p}"), "errors": 0, "n": 0, "lv": [], "pg": [], "tt": []}),
         Err(p) => json!({"ok": false, "err": format!("panic: {p}"), "errors": 0, "toc": []}),
     }
 }
@@ -155,62 +272,143 @@ fn save_load(doc: &mut Document, fmt: &str) -> Result<Document, String> {
     }
 }
 
+/// Object numbers as TLC can hold them: the top quarter of u32 is moved down by 2^31 (order among the
+/// numbers of one document is kept as long as none lies in [2^30, 3*2^30), which no case produces).
+fn wid(x: u32) -> u32 {
+    if x >= 3 << 30 {
+        x - (1 << 31)
+    } else if x >= 1 << 30 {
+        BAD
+    } else {
+        x
+    }
+}
+
+fn wids(v: &[u32]) -> Vec<u32> {
+    v.iter().map(|x| wid(*x)).collect()
+}
+
+/// title of level k (1-based) of a compact chain: "t<k>", and a CJK character + <k> on every third level
+fn chain_title(k: usize) -> String {
+    if k % 3 == 0 {
+        format!("\u{7AE0}{k}")
+    } else {
+        format!("t{k}")
+    }
+}
+
+/// the bookmark forest of a case: either explicit `adds` or the chain t1 > t2 > ... > tn with `pages`
+enum Forest<'a> {
+    Adds(&'a Vec<Value>),
+    Chain { n: usize, zero: bool, leaf_page: usize },
+}
+
 fn run_case(c: &Value) -> Value {
     let np = c["np"].as_u64().unwrap() as usize;
     let style = c["style"].as_u64().unwrap_or(0);
-    let (mut doc, pageids) = match guarded(|| mkdoc(np, style)) {
-        Ok(Ok(x)) => x,
-        Ok(Err(e)) => return json!({"np": np, "adds": c["adds"], "panic": e}),
-        Err(p) => return json!({"np": np, "adds": c["adds"], "panic": format!("base-document: panic: {p}")}),
+    let dests = c["dests"].as_str().unwrap_or("none").to_string();
+    let room = c["room"].as_u64().map(|r| r as u32);
+    let compact = c["kind"].as_str() == Some("chain");
+    let st = Stacks {
+        kb: c["stack_kb"].as_u64().unwrap_or(2048) as usize,
+        small: c["small"]
+            .as_array()
+            .map(|a| a.iter().map(|x| x.as_str().unwrap().to_string()).collect())
+            .unwrap_or_else(|| vec!["adjust".into(), "build".into(), "toc".into()]),
     };
-    let adds = c["adds"].as_array().unwrap();
     let fmts: Vec<String> = c["fmts"]
         .as_array()
         .map(|a| a.iter().map(|x| x.as_str().unwrap().to_string()).collect())
         .unwrap_or_else(|| vec!["table".into(), "stream".into()]);
     let chain = c["chain"].as_bool().unwrap_or(true);
     let adjust = c["adjust"].as_bool().unwrap_or(true);
-    let mut rec = json!({"np": np, "pageids": pageids, "adds": c["adds"], "adjust": adjust, "style": style,
-                         "fmts": fmts, "chain": chain, "post": c["post"].as_u64().unwrap_or(0),
-                         "link": c["link"].as_str().unwrap_or("mut")});
+    let mut rec = json!({"np": np, "adjust": adjust, "style": style, "fmts": fmts, "chain": chain,
+                         "post": c["post"].as_u64().unwrap_or(0), "link": c["link"].as_str().unwrap_or("mut"),
+                         "dests": dests, "room": room.map(|r| r as i64).unwrap_or(-1),
+                         "stack_kb": st.kb, "small": st.small});
+    let empty = vec![];
+    let forest = if compact {
+        rec["kind"] = json!("chain");
+        rec["n"] = c["n"].clone();
+        rec["zero"] = c["zero"].clone();
+        rec["leaf_page"] = c["leaf_page"].clone();
+        Forest::Chain {
+            n: c["n"].as_u64().unwrap() as usize,
+            zero: c["zero"].as_bool().unwrap_or(false),
+            leaf_page: c["leaf_page"].as_u64().unwrap_or(1) as usize,
+        }
+    } else {
+        rec["adds"] = c["adds"].clone();
+        Forest::Adds(c["adds"].as_array().unwrap_or(&empty))
+    };
+    let (mut doc, pageids) = match guarded(|| mkdoc(np, style, &dests, room)) {
+        Ok(Ok(x)) => x,
+        Ok(Err(e)) => {
+            rec["panic"] = json!(e);
+            return rec;
+        }
+        Err(p) => {
+            rec["panic"] = json!(format!("base-document: panic: {p}"));
+            return rec;
+        }
+    };
+    rec["pageids"] = json!(wids(&pageids));
     // ---- AddBookmark*
     let mut bids: Vec<u32> = vec![];
-    let r = guarded(|| {
-        for a in adds {
-            let title: String =
-                a["title"].as_array().unwrap().iter().map(|x| char::from_u32(x.as_u64().unwrap() as u32).expect("scalar value")).collect();
-            let p = a["page"].as_u64().unwrap() as usize;
-            let page: ObjectId = if p == 0 { (0, a["zg"].as_u64().unwrap_or(0) as u16) } else { (pageids[p - 1], 0) };
-            let parent = match a["parent"].as_u64().unwrap() as usize {
-                0 => None,
-                k => Some(bids[k - 1]),
-            };
-            let fmt = a["fmt"].as_u64().unwrap_or(0) as u32;
-            let id = doc.add_bookmark(Bookmark::new(title, [0.0, 0.5, 1.0], fmt, page), parent);
-            bids.push(id);
+    let r = guarded(|| match &forest {
+        Forest::Adds(adds) => {
+            for a in adds.iter() {
+                let title: String =
+                    a["title"].as_array().unwrap().iter().map(|x| char::from_u32(x.as_u64().unwrap() as u32).expect("scalar value")).collect();
+                let p = a["page"].as_u64().unwrap() as usize;
+                let page: ObjectId = if p == 0 { (0, a["zg"].as_u64().unwrap_or(0) as u16) } else { (pageids[p - 1], 0) };
+                let parent = match a["parent"].as_u64().unwrap() as usize {
+                    0 => None,
+                    k => Some(bids[k - 1]),
+                };
+                let fmt = a["fmt"].as_u64().unwrap_or(0) as u32;
+                let id = doc.add_bookmark(Bookmark::new(title, [0.0, 0.5, 1.0], fmt, page), parent);
+                bids.push(id);
+            }
+        }
+        Forest::Chain { n, zero, leaf_page } => {
+            // level k: page ((k + leaf_page) mod np) + 1, or the zero page on every level but the last
+            for k in 1..=*n {
+                let page: ObjectId = if *zero && k < *n { (0, 0) } else { (pageids[(k + leaf_page) % np], 0) };
+                let parent = bids.last().copied();
+                let id = doc.add_bookmark(Bookmark::new(chain_title(k), [0.0, 0.5, 1.0], (k % 4) as u32, page), parent);
+                bids.push(id);
+            }
         }
     });
     if let Err(p) = r {
         rec["panic"] = json!(format!("add_bookmark: {p}"));
         return rec;
     }
-    rec["bids"] = json!(bids);
-    rec["roots"] = json!(doc.bookmarks);
-    rec["children"] =
-        json!(bids.iter().map(|b| doc.bookmark_table.get(b).map(|x| x.children.clone()).unwrap_or_default()).collect::<Vec<_>>());
+    if !compact {
+        rec["bids"] = json!(bids);
+        rec["roots"] = json!(doc.bookmarks);
+        rec["children"] =
+            json!(bids.iter().map(|b| doc.bookmark_table.get(b).map(|x| x.children.clone()).unwrap_or_default()).collect::<Vec<_>>());
+    }
     // ---- AdjustZeroPages
     if adjust {
-        if let Err(p) = guarded(|| doc.adjust_zero_pages()) {
+        if let Err(p) = st.run("adjust", || guarded(|| doc.adjust_zero_pages())) {
             rec["panic"] = json!(format!("adjust_zero_pages: {p}"));
             return rec;
         }
     }
-    rec["adj"] = json!(bids.iter().map(|b| doc.bookmark_table.get(b).map(|x| x.page.0).unwrap_or(BAD)).collect::<Vec<_>>());
+    if !compact {
+        rec["adj"] = json!(bids.iter().map(|b| doc.bookmark_table.get(b).map(|x| wid(x.page.0)).unwrap_or(BAD)).collect::<Vec<_>>());
+    }
     // ---- BuildOutline
     let before = doc.objects.clone();
-    rec["base"] = json!(doc.max_id);
-    rec["oldids"] = json!(before.keys().map(|k| k.0).collect::<BTreeSet<u32>>());
-    let root = match guarded(|| doc.build_outline()) {
+    let before_state = (doc.max_id, doc.trailer.clone());
+    rec["base"] = json!(wid(doc.max_id));
+    if !compact {
+        rec["oldids"] = json!(before.keys().map(|k| wid(k.0)).collect::<BTreeSet<u32>>());
+    }
+    let root = match st.run("build", || guarded(|| doc.build_outline())) {
         Ok(r) => r,
         Err(p) => {
             rec["panic"] = json!(format!("build_outline: {p}"));
@@ -218,14 +416,16 @@ fn run_case(c: &Value) -> Value {
         }
     };
     let rootn = match root {
-        Some((n, 0)) => n,
+        Some((n, 0)) => wid(n),
         Some(_) => BAD,
         None => 0,
     };
     rec["root"] = json!(rootn);
-    rec["max_id"] = json!(doc.max_id);
+    rec["max_id"] = json!(wid(doc.max_id));
     let changed: Vec<u32> = before.iter().filter(|(k, v)| doc.objects.get(k) != Some(v)).map(|(k, _)| k.0).collect();
-    rec["changed"] = json!(changed);
+    rec["changed"] = json!(wids(&changed));
+    // did a refusing build_outline leave the document alone?
+    rec["untouched"] = json!(doc.objects == before && doc.max_id == before_state.0 && doc.trailer == before_state.1);
     let mut items = vec![];
     let mut others = vec![];
     let mut rootrec = json!({"first": 0, "last": 0, "present": false});
@@ -239,47 +439,113 @@ fn run_case(c: &Value) -> Value {
         }
         match o {
             Object::Dictionary(d) if Some(*id) == root => {
-                rootrec = json!({"first": link(d, b"First"), "last": link(d, b"Last"), "present": true});
+                rootrec = json!({"first": wid(link(d, b"First")), "last": wid(link(d, b"Last")), "present": true});
             }
             Object::Dictionary(d) if d.has(b"Title") => items.push(item_json(&doc, id.0, d)),
-            _ => others.push(id.0),
+            _ => others.push(wid(id.0)),
         }
     }
     rec["rootrec"] = rootrec;
-    rec["items"] = json!(items);
-    rec["others"] = json!(others);
+    if compact {
+        // per level: the item whose /Title is a spelling of the level's title (the validator re-checks the bytes)
+        let n = bids.len();
+        let mut by_title: HashMap<Vec<u64>, Vec<usize>> = HashMap::new();
+        for (j, it) in items.iter().enumerate() {
+            let t: Vec<u64> = it["title"].as_array().unwrap().iter().map(|x| x.as_u64().unwrap()).collect();
+            by_title.entry(t).or_default().push(j);
+        }
+        let cols = ["id", "parent", "first", "last", "next", "prev", "aid", "dest"];
+        let mut col: Vec<Vec<u64>> = vec![Vec::with_capacity(n); cols.len()];
+        let (mut found, mut dkok, mut titles, mut destpn) = (vec![], vec![], vec![], vec![]);
+        for k in 1..=n {
+            let t = chain_title(k);
+            let ascii: Vec<u64> = t.bytes().map(|b| b as u64).collect();
+            let mut u16be: Vec<u64> = vec![0xFE, 0xFF];
+            u16be.extend(t.encode_utf16().flat_map(|u| u.to_be_bytes()).map(|b| b as u64));
+            let mut u8bom: Vec<u64> = vec![0xEF, 0xBB, 0xBF];
+            u8bom.extend(t.bytes().map(|b| b as u64));
+            let mut hits: Vec<usize> = vec![];
+            for cand in [if t.is_ascii() { Some(ascii) } else { None }, Some(u16be), Some(u8bom)].into_iter().flatten() {
+                if let Some(js) = by_title.get(&cand) {
+                    hits.extend(js);
+                }
+            }
+            if hits.len() == 1 {
+                let it = &items[hits[0]];
+                found.push(1);
+                for (ci, cn) in cols.iter().enumerate() {
+                    col[ci].push(it[*cn].as_u64().unwrap());
+                }
+                dkok.push(if matches!(it["dk"].as_str(), Some("A:GoTo") | Some("Dest")) { 1 } else { 0 });
+                titles.push(it["title"].clone());
+                let d = it["dest"].as_u64().unwrap();
+                destpn.push(rec["pageids"].as_array().unwrap().iter().position(|p| p.as_u64() == Some(d)).map(|i| i + 1).unwrap_or(0));
+            } else {
+                found.push(0);
+                for c in col.iter_mut() {
+                    c.push(0);
+                }
+                dkok.push(0);
+                titles.push(json!([]));
+                destpn.push(0);
+            }
+        }
+        for (ci, cn) in cols.iter().enumerate() {
+            rec[*cn] = json!(col[ci]);
+        }
+        rec["found"] = json!(found);
+        rec["dkok"] = json!(dkok);
+        rec["title"] = json!(titles);
+        rec["destpn"] = json!(destpn);
+        rec["nitems"] = json!(items.len());
+        rec["nothers"] = json!(others.len());
+    } else {
+        rec["items"] = json!(items);
+        rec["others"] = json!(others);
+    }
     // ---- allocations after build_outline: `post` calls alternating add_object / new_object_id, then
     //      LinkCatalog: "mut" = /Outlines set in the existing catalog (as examples/merge.rs and the README
     //      do), "new" = a new catalog carrying /Outlines is made with add_object and becomes the Root
     let built = doc.objects.clone();
     let mut later: Vec<u32> = vec![];
-    for j in 0..c["post"].as_u64().unwrap_or(0) {
-        let id = if j % 2 == 0 { doc.add_object(Object::Integer(j as i64)) } else { doc.new_object_id() };
-        later.push(if id.1 == 0 { id.0 } else { BAD });
-    }
-    if let Some(r) = root {
-        let linked = if c["link"].as_str() == Some("new") {
-            match doc.catalog().map(|d| d.clone()) {
-                Ok(mut cat) => {
-                    cat.set("Outlines", Object::Reference(r));
-                    let id = doc.add_object(cat);
-                    later.push(if id.1 == 0 { id.0 } else { BAD });
-                    doc.trailer.set("Root", Object::Reference(id));
-                    true
+    let post = guarded(|| {
+        for j in 0..c["post"].as_u64().unwrap_or(0) {
+            let id = if j % 2 == 0 { doc.add_object(Object::Integer(j as i64)) } else { doc.new_object_id() };
+            later.push(if id.1 == 0 { wid(id.0) } else { BAD });
+        }
+        if let Some(r) = root {
+            if c["link"].as_str() == Some("new") {
+                match doc.catalog().map(|d| d.clone()) {
+                    Ok(mut cat) => {
+                        cat.set("Outlines", Object::Reference(r));
+                        let id = doc.add_object(cat);
+                        later.push(if id.1 == 0 { wid(id.0) } else { BAD });
+                        doc.trailer.set("Root", Object::Reference(id));
+                        true
+                    }
+                    Err(_) => false,
                 }
-                Err(_) => false,
+            } else {
+                match doc.catalog_mut() {
+                    Ok(cat) => {
+                        cat.set("Outlines", Object::Reference(r));
+                        true
+                    }
+                    Err(_) => false,
+                }
             }
         } else {
-            match doc.catalog_mut() {
-                Ok(cat) => {
-                    cat.set("Outlines", Object::Reference(r));
-                    true
-                }
-                Err(_) => false,
-            }
-        };
-        if !linked {
+            true
+        }
+    });
+    match post {
+        Ok(true) => {}
+        Ok(false) => {
             rec["panic"] = json!("base-document: no catalog");
+            return rec;
+        }
+        Err(p) => {
+            rec["panic"] = json!(format!("allocation-after-build: {p}"));
             return rec;
         }
     }
@@ -288,32 +554,26 @@ fn run_case(c: &Value) -> Value {
     rec["clobbered"] = json!(built
         .iter()
         .filter(|(k, v)| !before.contains_key(k) && doc.objects.get(k) != Some(v))
-        .map(|(k, _)| k.0)
+        .map(|(k, _)| wid(k.0))
         .collect::<Vec<u32>>());
-    // ---- GetToc, then Save;Load;GetToc in both xref formats (second format on the reloaded document
-    //      when chain = true, on the original otherwise)
-    rec["toc0"] = toc_json(&doc);
+    // ---- GetToc, then Save;Load;GetToc in the xref formats of `fmts` (each format on the previously reloaded
+    //      document when chain = true, on the original otherwise)
+    let mut tocs = vec![toc_json(&doc, &st, compact)];
     let mut cur = doc.clone();
-    for (k, f) in fmts.iter().enumerate() {
-        let key = format!("toc{}", k + 1);
+    for f in fmts.iter() {
         let src = if chain { &mut cur } else { &mut doc };
         match save_load(src, f) {
             Ok(d) => {
-                rec[&key] = toc_json(&d);
-                rec[format!("xref{}", k + 1)] = json!(match d.reference_table.cross_reference_type {
-                    XrefType::CrossReferenceTable => "table",
-                    XrefType::CrossReferenceStream => "stream",
-                });
+                tocs.push(toc_json(&d, &st, compact));
                 if chain {
                     cur = d;
                 }
             }
-            Err(e) => {
-                rec[&key] = json!({"ok": false, "err": e, "errors": 0, "toc": []});
-                rec[format!("xref{}", k + 1)] = json!("none");
-            }
+            Err(e) if compact => tocs.push(json!({"ok": false, "err": e, "errors": 0, "n": 0, "lv": [], "pg": [], "tt": []})),
+            Err(e) => tocs.push(json!({"ok": false, "err": e, "errors": 0, "toc": []})),
         }
     }
+    rec["tocs"] = json!(tocs);
     rec
 }
 
@@ -401,7 +661,8 @@ fn random_case(rng: &mut Rng) -> Value {
     let first_table = rng.chance(1, 2);
     json!({"np": np, "adds": adds, "adjust": any_zero || rng.chance(2, 3), "style": rng.next_u64() >> 34,
            "fmts": if first_table { ["table", "stream"] } else { ["stream", "table"] }, "chain": rng.chance(1, 2),
-           "post": rng.below(4), "link": if rng.chance(1, 2) { "mut" } else { "new" }})
+           "post": rng.below(4), "link": if rng.chance(1, 2) { "mut" } else { "new" },
+           "dests": if rng.chance(1, 2) { "none" } else { *rng.pick(DESTS) }})
 }
 
 extern "C" {
@@ -422,30 +683,116 @@ fn worker() {
     lopdf_conform::guard::quiet_panics();
     sup::worker_loop(|l| {
         let c: Value = serde_json::from_str(l).expect("case json");
-        match guarded(|| run_case(&c)) {
+        // everything that is not a walker under test runs on a 1 GiB (lazily committed) stack
+        match on_stack(1 << 20, || guarded(|| run_case(&c))) {
             Ok(r) => r.to_string(),
-            Err(p) => json!({"np": c["np"], "adds": c["adds"], "panic": format!("harness/run_case: {p}")}).to_string(),
+            Err(p) => {
+                let mut v = c.clone();
+                v["panic"] = json!(format!("harness/run_case: {p}"));
+                v.to_string()
+            }
         }
     });
 }
 
-fn supervise(cases: &[Value], out: &str) {
+fn supervise(cases: &[Value], secs: u64) -> Vec<Value> {
     let exe = std::env::current_exe().unwrap().to_string_lossy().to_string();
     let lines: Vec<String> = cases.iter().map(|c| c.to_string()).collect();
-    let res = sup::run_cases(&exe, &["worker".to_string()], &lines, Duration::from_secs(10), 2048);
-    let mut o = NdjsonOut::create(out);
+    let res = sup::run_cases(&exe, &["worker".to_string()], &lines, Duration::from_secs(secs), 8192);
+    let mut out = vec![];
     for (c, r) in cases.iter().zip(res) {
+        // a run that did not answer keeps its inputs (the case) and says what happened
         let mut v = match r {
             sup::Outcome::Line(l) => serde_json::from_str(&l).expect("worker answer"),
-            sup::Outcome::Hang => json!({"np": c["np"], "adds": c["adds"], "panic": "hang: no answer within 10 s"}),
-            sup::Outcome::Crash(s) => json!({"np": c["np"], "adds": c["adds"], "panic": format!("crash: {s}")}),
+            sup::Outcome::Hang => {
+                let mut v = c.clone();
+                v["panic"] = json!(format!("hang: no answer within {secs} s"));
+                v
+            }
+            sup::Outcome::Crash(s) => {
+                let mut v = c.clone();
+                v["panic"] = json!(format!("crash: {s}"));
+                v
+            }
         };
-        if let Some(k) = c.get("case") {
-            v["case"] = k.clone();
+        for k in ["case", "cls"] {
+            if let Some(x) = c.get(k) {
+                v[k] = x.clone();
+            }
         }
-        o.put(&v);
+        out.push(v);
+    }
+    out
+}
+
+fn write_all(recs: &[Value], out: &str) {
+    let mut o = NdjsonOut::create(out);
+    for v in recs {
+        o.put(v);
     }
     o.finish();
+}
+
+/// the deterministic classes appended to every recorded set
+fn class_cases(rng: &mut Rng, deep: u64) -> (Vec<Value>, Vec<Value>) {
+    let mut light = vec![];
+    let mut heavy = vec![];
+    let sty = |rng: &mut Rng| rng.next_u64() >> 34;
+    // titles made of balanced parentheses nested around the reader's literal-string limit (100)
+    for depth in [99usize, 100, 101, 130] {
+        let mut t: Vec<u32> = vec![0x28; depth];
+        t.push(0x61 + (depth % 26) as u32);
+        t.extend(std::iter::repeat(0x29).take(depth));
+        let sib: Vec<u32> = "()) plain ((".chars().map(|c| c as u32).collect();
+        light.push(json!({"cls": "parens", "np": 2, "adds": [{"parent": 0, "title": sib, "page": 0, "zg": 0, "fmt": 0},
+            {"parent": 1, "title": t, "page": 2, "zg": 0, "fmt": 0}, {"parent": 0, "title": [0x4E2D, 0x28], "page": 1, "zg": 0, "fmt": 1}],
+            "adjust": true, "style": sty(rng), "fmts": ["table", "stream"], "chain": depth % 2 == 0,
+            "post": depth % 3, "link": if depth % 2 == 0 { "new" } else { "mut" }}));
+    }
+    // a small forest next to a named-destination table in every legal spelling
+    let t = |s: &str| s.chars().map(|c| c as u32).collect::<Vec<u32>>();
+    for (i, d) in DESTS.iter().enumerate() {
+        light.push(json!({"cls": "dests", "dests": d, "np": 2, "adds": [{"parent": 0, "title": t("A"), "page": 0, "zg": 0, "fmt": 0},
+            {"parent": 1, "title": t("B \u{2014} \u{7AE0}"), "page": 2, "zg": 0, "fmt": 0}, {"parent": 0, "title": t("chap1"), "page": 1, "zg": 0, "fmt": 0}],
+            "adjust": true, "style": sty(rng), "fmts": ["table", "stream"], "chain": i % 2 == 0, "post": i % 2,
+            "link": if i % 3 == 0 { "new" } else { "mut" }}));
+    }
+    // object numbers at the numeric limit: `room` numbers are left above the base document's max_id
+    // (2 bookmarks need 1 + 2*2 = 5; saving in the xref-stream format needs one more and Size one more)
+    for (room, fmts) in [(40u32, vec!["stream"]), (13, vec!["stream"]), (5, vec![]), (4, vec![]), (3, vec![]), (1, vec![]), (0, vec![])] {
+        light.push(json!({"cls": "ids", "room": room, "np": 1, "adds": [{"parent": 0, "title": t("A"), "page": 1, "zg": 0, "fmt": 0},
+            {"parent": if room % 2 == 0 { 1 } else { 0 }, "title": t("B"), "page": 1, "zg": 0, "fmt": 0}],
+            "adjust": room % 3 == 0, "style": sty(rng), "fmts": fmts, "chain": true, "post": 0, "link": "mut"}));
+    }
+    // chains t1 > t2 > ... > tn: one walker at a time on the small stack
+    for n in [10u64, 100, 1000, 10_000, 100_000] {
+        if n > deep {
+            continue;
+        }
+        let fmts = if n <= 1000 { json!(["table", "stream"]) } else { json!(["stream"]) };
+        let mut v = vec![
+            json!({"cls": "deep", "kind": "chain", "n": n, "zero": false, "leaf_page": 1, "np": 3, "adjust": false, "small": ["build"],
+                   "style": sty(rng), "fmts": fmts, "chain": true, "post": 1, "link": "new"}),
+            json!({"cls": "deep", "kind": "chain", "n": n, "zero": false, "leaf_page": 2, "np": 2, "adjust": n % 100 == 0, "small": ["toc"],
+                   "style": sty(rng), "fmts": fmts, "chain": false, "post": 0, "link": "mut"}),
+            json!({"cls": "deep", "kind": "chain", "n": n, "zero": true, "leaf_page": 0, "np": 3, "adjust": true, "small": ["adjust"],
+                   "style": sty(rng), "fmts": if n <= 1000 { json!(["stream"]) } else { json!([]) }, "chain": true, "post": 0, "link": "mut"}),
+        ];
+        if n <= 100 {
+            // the same chain in the general record format (judged by Outline!Judge), all walkers on the small stack
+            let adds: Vec<Value> = (1..=n as usize)
+                .map(|k| json!({"parent": k - 1, "title": t(&chain_title(k)), "page": if k < n as usize { 0 } else { 2 }, "zg": 0, "fmt": 0}))
+                .collect();
+            v.push(json!({"cls": "deep", "np": 2, "adds": adds, "adjust": true, "style": sty(rng), "fmts": ["table", "stream"],
+                          "chain": true, "post": 2, "link": "new"}));
+        }
+        if n >= 10_000 {
+            heavy.extend(v);
+        } else {
+            light.extend(v);
+        }
+    }
+    (light, heavy)
 }
 
 fn main() {
@@ -453,35 +800,30 @@ fn main() {
     match args.get(1).map(String::as_str) {
         Some("worker") => worker(),
         Some("replay") => {
-            // cases generated by TLC: {np, adds:[{parent,title,page}], adjust, post, link}
+            // cases generated by TLC: {np, adds:[{parent,title,page}], adjust, post, link [, dests, room, fmts]}
             let mut cases = read_ndjson(&arg(&args, "--in").unwrap());
             for (i, c) in cases.iter_mut().enumerate() {
                 c["case"] = json!(i + 1);
                 c["style"] = json!(i % 7);
-                c["fmts"] = json!(["table", "stream"]);
+                if c.get("fmts").is_none() {
+                    c["fmts"] = json!(["table", "stream"]);
+                }
                 c["chain"] = json!(true);
             }
-            supervise(&cases, &arg(&args, "--out").unwrap());
+            write_all(&supervise(&cases, 10), &arg(&args, "--out").unwrap());
         }
         Some("record") => {
             let mut rng = Rng::new(arg_u64(&args, "--seed", 1));
             let n = arg_u64(&args, "--n", 100);
             let mut cases: Vec<Value> = (0..n).map(|_| random_case(&mut rng)).collect();
-            // titles made of balanced parentheses nested around the reader's literal-string limit (100)
-            for depth in [99usize, 100, 101, 130] {
-                let mut t: Vec<u32> = vec![0x28; depth];
-                t.push(0x61 + (depth % 26) as u32);
-                t.extend(std::iter::repeat(0x29).take(depth));
-                let sib: Vec<u32> = "()) plain ((".chars().map(|c| c as u32).collect();
-                cases.push(json!({"np": 2, "adds": [{"parent": 0, "title": sib, "page": 0, "zg": 0, "fmt": 0},
-                    {"parent": 1, "title": t, "page": 2, "zg": 0, "fmt": 0}, {"parent": 0, "title": [0x4E2D, 0x28], "page": 1, "zg": 0, "fmt": 1}],
-                    "adjust": true, "style": rng.next_u64() >> 34, "fmts": ["table", "stream"], "chain": depth % 2 == 0,
-                    "post": depth % 3, "link": if depth % 2 == 0 { "new" } else { "mut" }}));
-            }
-            supervise(&cases, &arg(&args, "--out").unwrap());
+            let (light, heavy) = class_cases(&mut rng, arg_u64(&args, "--deep", 10_000));
+            cases.extend(light);
+            let mut recs = supervise(&cases, 10);
+            recs.extend(supervise(&heavy, 300));
+            write_all(&recs, &arg(&args, "--out").unwrap());
         }
         _ => {
-            eprintln!("usage: c17 replay --in F --out F | record --seed S --n N --out F");
+            eprintln!("usage: c17 replay --in F --out F | record --seed S --n N [--deep D] --out F");
             std::process::exit(2)
         }
     }
